@@ -28,8 +28,9 @@ PROPS = {"C12", "C13"}
 ARITH = ["+", "-", "*", "/"]
 CMP = ["<", "<=", ">", ">=", "==", "!="]
 RANK = {"Or": 1, "And": 2, "<": 3, "<=": 3, ">": 3, ">=": 3, "==": 3, "!=": 3, "+": 4, "-": 4, "*": 5, "/": 5}
-NUM_ATTRS = [["r", "n"], ["r", "m", "n"], ["r", "k"]]
-BOOL_ATTRS = [["r", "b"], ["r", "m", "b"]]
+# m.name / m.context: fields named like members of the Python objects that carry the values (Struct.name, Struct.context)
+NUM_ATTRS = [["r", "n"], ["r", "m", "n"], ["r", "k"], ["r", "m", "name"]]
+BOOL_ATTRS = [["r", "b"], ["r", "m", "b"], ["r", "m", "context"]]
 NUM_LITS = [0, 1, 2, 3, 4, 8, 0.5, 1.5, 2.25]
 VALUES = [0, 1, 2, 3, -1, -2, Fraction(1, 2), Fraction(-1, 2), Fraction(3, 2), 4, 8]
 POW2 = [1, 2, -2, 4, Fraction(1, 2), -1, 8]
@@ -249,7 +250,8 @@ def gen_valuation(rng):
     def num():
         return rng.choice(VALUES)
 
-    return {"r": {"n": num(), "k": num(), "b": rng.random() < 0.5, "m": {"n": num(), "b": rng.random() < 0.5}}}
+    return {"r": {"n": num(), "k": num(), "b": rng.random() < 0.5,
+                  "m": {"n": num(), "b": rng.random() < 0.5, "name": num(), "context": rng.random() < 0.5}}}
 
 
 def val_json(v):
@@ -282,19 +284,19 @@ def small_enough(e, val):
         return False
 
 
-HDR = "Struct M\n    n: number\n    b: boolean\nEnd\nStruct R\n    n: number\n    k: number\n    b: boolean\n    m: M\nEnd\n"
+HDR = "Struct M\n    n: number\n    b: boolean\n    name: number\n    context: boolean\nEnd\nStruct R\n    n: number\n    k: number\n    b: boolean\n    m: M\nEnd\n"
 
 
 def program_for(text, kind):
     if kind == "par2":
         # two instances of one task are started by the same event; each decides on ITS value of r
-        lit = '{"n": 1, "k": 1, "b": true, "m": {"n": 1, "b": true}}'
+        lit = '{"n": 1, "k": 1, "b": true, "m": {"n": 1, "b": true, "name": 1, "context": true}}'
         return (HDR + "Task productionTask\n    Parallel\n        t\n            In\n                R\n                    " + lit +
                 "\n        t\n            In\n                R\n                    " + lit +
                 "\nEnd\nTask t\n    In\n        r: R\n    Condition\n        " + text + "\n    Passed\n        Yes\n    Failed\n        No\nEnd\n")
     if kind == "par2w":
         # the same with a while loop: the guard object is shared by both instances of the task, each decides on ITS value
-        lit = '{"n": 1, "k": 1, "b": true, "m": {"n": 1, "b": true}}'
+        lit = '{"n": 1, "k": 1, "b": true, "m": {"n": 1, "b": true, "name": 1, "context": true}}'
         return (HDR + "Task productionTask\n    Parallel\n        t\n            In\n                R\n                    " + lit +
                 "\n        t\n            In\n                R\n                    " + lit +
                 "\nEnd\nTask t\n    In\n        r: R\n    Loop While " + text + "\n        Yes\n    No\nEnd\n")
